@@ -60,6 +60,17 @@ def cases(tier, seed):
     for d in (0.5, 0.3, 1.0):
         for vec in (False, True):
             out.append({'kind': 'edge', 'delay': d, 'vectorize': vec, 'solver': 'scipy'})
+    # several delayed edges between two merged sources and two merged targets under an adaptive solver: every listing
+    # order, equal and different delays per source
+    pairs = [('r0', 'a'), ('r1', 'b'), ('r0', 'b'), ('r1', 'a')]
+    for k in (2, 3):
+        for sel in itertools.permutations(pairs, k):
+            if k == 3 and sel[0] > sel[1]:
+                continue
+            for dl in ((0.5,) * k, (0.5, 0.3, 1.0)[:k]):
+                for vec in (False, True):
+                    out.append({'kind': 'edges', 'edges': [[s_, t_, d_] for (s_, t_), d_ in zip(sel, dl)], 'vectorize': vec,
+                                'solver': 'scipy'})
     # 1-3 structurally identical nodes (merged by the vectorization) with their own rate, initial value and - for named
     # delays - their own delay: vectorized and non-vectorized runs must agree
     for n in (1, 2, 3):
@@ -107,7 +118,7 @@ def run_case(case):
         return res
     try:
         return {'func': run_func, 'edge': run_edge, 'steps': run_steps, 'ramp': run_ramp,
-                'quad': run_quad, 'vec': run_vec}[case['kind']](case, res, sig, viol)
+                'quad': run_quad, 'vec': run_vec, 'edges': run_edges}[case['kind']](case, res, sig, viol)
     except Exception as e:
         import traceback
         sig['exc'] = type(e).__name__
@@ -340,5 +351,49 @@ def run_vec(case, res, sig, viol):
     if n > 1 and np.max(np.abs(frames[True][0] - frames[True][1])) < 1e-3:
         return viol('members_not_distinct')
     res['outcome'] = 'vec'
+    res['ok'] = True
+    return res
+
+
+def run_edges(case, res, sig, viol):
+    """sources r0, r1 (one template), targets a, b (one template); delayed edges under an adaptive solver read
+    hist(t - d)[source] per edge"""
+    from pyrates import OperatorTemplate, NodeTemplate, CircuitTemplate
+    from .. import impl
+    so = OperatorTemplate('so', equations=["d/dt * r = c - 0.2*r"], variables={'r': 'output(0.3)', 'c': 0.5})
+    to = OperatorTemplate('to', equations=["d/dt * v = -v + u"], variables={'v': 'output(0.1)', 'u': 'input(0.0)'})
+    nodes = {'r0': NodeTemplate('r0', operators={so: {'c': 0.5}}), 'r1': NodeTemplate('r1', operators={so: {'c': 0.8}}),
+             'a': NodeTemplate('a', operators=[to]), 'b': NodeTemplate('b', operators=[to])}
+    W = [2.0, -0.5, 1.5]
+    edges = [(f'{s_}/so/r', f'{t_}/to/u', None, {'weight': W[i], 'delay': d_}) for i, (s_, t_, d_) in enumerate(case['edges'])]
+    sig['features'].append('several_delayed_edges_adaptive')
+    c = CircuitTemplate('c', nodes=nodes, edges=edges)
+    C = impl.compile_field(c, {'vectorize': case['vectorize'], 'dt': DT, 'solver': 'scipy'})
+    if not C.has_hist:
+        return viol('no_hist_argument', names=list(C.names))
+    pos = {p: C.position(p)[0] for p in ('r0/so/r', 'r1/so/r', 'a/to/v', 'b/to/v')}
+    coef = {'r0/so/r': (0.4, 0.3, 0.1), 'r1/so/r': (0.9, -0.2, 0.05)}
+
+    def hist(s_):
+        out = np.array([7.0 + 0.1 * i + s_ for i in range(C.n)])
+        for p, (c0, c1, c2) in coef.items():
+            out[pos[p]] = c0 + c1 * s_ + c2 * s_ * s_
+        return out
+    y = np.zeros(C.n)
+    y[pos['r0/so/r']], y[pos['r1/so/r']], y[pos['a/to/v']], y[pos['b/to/v']] = 0.7, 0.45, 0.2, -0.3
+    for t in (0.0, 0.2, 1.0, 2.3):
+        dy = C.call(y.copy(), t=t, hist=hist)
+        res['evals'] += 1
+        for tgt, v0 in (('a', 0.2), ('b', -0.3)):
+            u = 0.0
+            for i, (s_, t_, d_) in enumerate(case['edges']):
+                if t_ == tgt:
+                    c0, c1, c2 = coef[f'{s_}/so/r']
+                    u += W[i] * (c0 + c1 * (t - d_) + c2 * (t - d_) ** 2)
+            exp = -v0 + u
+            got = float(dy[pos[f'{tgt}/to/v']])
+            if abs(got - exp) > 1e-9:
+                return viol('delayed_edge_value', target=tgt, t=t, got=got, expected=exp, edges=case['edges'])
+    res['outcome'] = 'edges'
     res['ok'] = True
     return res
